@@ -510,3 +510,5 @@ def run(tier, seed):
 
 
 RULE += (' Pairs with equal ids (assigned, copy, deepcopy, from_dict, restarted counter) and pairs carried by different individual classes (5 x 5 class pairs): equality, hash, membership, set, Archive.remove.')
+
+RULE += (' Beyond small: generate() for populations of 31..257 over children 1e-7 apart, with exact repeats and with large coordinates; vectors of 31..1025 coordinates differing at one position; containers of 300 designs; designs built from a re-used numpy buffer.')
